@@ -64,6 +64,7 @@ let () = iter_lines (fun line ->
           print_endline (match spec_get f s with Ok v -> "ok " ^ dec_of_z v | Panic -> "panic" | Escape -> "escape")
         | "set" | "new" ->
           print_endline (match spec_set f (z_of_dec arg) s with Ok s' -> show_struct s' | Panic -> "panic" | Escape -> "escape")
+        | "future" -> print_endline ("ok " ^ dec_of_z (spec_future f s))
         | "has" -> print_endline (if spec_has f s then "ok 1" else "ok 0")
         | "which" -> print_endline ("ok " ^ dec_of_z (spec_which f s))
         | _ -> print_endline "bad-case"
